@@ -55,6 +55,59 @@ for _n in (0, 7):
             ("movss %%xmm%d, %%xmm%d" % (_n, 7 - _n), "rr")]
 
 
+X87 = []
+for _i in (1, 2, 5):
+    X87 += [("fld %%st(%d)" % _i, "st"), ("fst %%st(%d)" % _i, "st"), ("fstp %%st(%d)" % _i, "st"), ("fxch %%st(%d)" % _i, "st"), ("fcom %%st(%d)" % _i, "st"), ("fcomp %%st(%d)" % _i, "st"),
+            ("fucom %%st(%d)" % _i, "st"), ("fucomp %%st(%d)" % _i, "st"), ("fcomi %%st(%d), %%st" % _i, "st"), ("fcomip %%st(%d), %%st" % _i, "st"),
+            ("fucomi %%st(%d), %%st" % _i, "st"), ("fucomip %%st(%d), %%st" % _i, "st")]
+    for _op in ("fadd", "fsub", "fsubr", "fmul", "fdiv", "fdivr"):
+        X87 += [("%s %%st(%d), %%st" % (_op, _i), "st"), ("%s %%st, %%st(%d)" % (_op, _i), "st"), ("%sp %%st, %%st(%d)" % (_op, _i), "st")]
+    for _cc in ("b", "e", "be", "u", "nb", "ne", "nbe", "nu"):
+        X87.append(("fcmov%s %%st(%d), %%st" % (_cc, _i), "st"))
+X87 += [("fld %st(0)", "st"), ("fst %st(0)", "st"), ("fstp %st(0)", "st"), ("fcompp", "none"), ("fucompp", "none"), ("ftst", "none"), ("fxam", "none"),
+        ("fchs", "none"), ("fabs", "none"), ("fsqrt", "none"), ("frndint", "none"), ("fsin", "none"), ("fcos", "none"), ("fsincos", "none"), ("fptan", "none"), ("fpatan", "none"),
+        ("f2xm1", "none"), ("fyl2x", "none"), ("fyl2xp1", "none"), ("fscale", "none"), ("fprem", "none"), ("fprem1", "none"), ("fxtract", "none"),
+        ("fld1", "none"), ("fldz", "none"), ("fldpi", "none"), ("fldl2e", "none"), ("fldl2t", "none"), ("fldlg2", "none"), ("fldln2", "none"),
+        ("fincstp", "none"), ("fdecstp", "none"), ("fnop", "none"), ("fnstsw %ax", "none"), ("fnstsw 0x10(%esi)", "m16"), ("fnstcw 0x10(%esi)", "m16"), ("fldcw 0x10(%esi)", "m16"),
+        ("flds 0x10(%esi)", "m32"), ("fldl 0x10(%esi)", "m64"), ("fldt 0x10(%esi)", "m80"), ("fsts 0x10(%esi)", "m32"), ("fstl 0x10(%esi)", "m64"),
+        ("fstps 0x10(%esi)", "m32"), ("fstpl 0x10(%esi)", "m64"), ("fstpt 0x10(%esi)", "m80"),
+        ("filds 0x10(%esi)", "m16"), ("fildl 0x10(%esi)", "m32"), ("fildll 0x10(%esi)", "m64"), ("fists 0x10(%esi)", "m16"), ("fistl 0x10(%esi)", "m32"),
+        ("fistps 0x10(%esi)", "m16"), ("fistpl 0x10(%esi)", "m32"), ("fistpll 0x10(%esi)", "m64"), ("fisttps 0x10(%esi)", "m16"), ("fisttpl 0x10(%esi)", "m32"), ("fisttpll 0x10(%esi)", "m64"),
+        ("fcoms 0x10(%esi)", "m32"), ("fcoml 0x10(%esi)", "m64"), ("fcomps 0x10(%esi)", "m32"), ("fcompl 0x10(%esi)", "m64"), ("ficoml 0x10(%esi)", "m32"), ("ficomps 0x10(%esi)", "m16")]
+for _op in ("fadd", "fsub", "fsubr", "fmul", "fdiv", "fdivr"):
+    X87 += [("%ss 0x10(%%esi)" % _op, "m32"), ("%sl 0x10(%%esi)" % _op, "m64"), ("fi%sl 0x10(%%esi)" % _op[1:], "m32"), ("fi%ss 0x10(%%esi)" % _op[1:], "m16")]
+X87_VALID = 6        # ST(0)..ST(5) hold numbers, ST(6) and ST(7) are empty: one push is possible, operands up to st(5) are readable
+
+
+def f80(key):
+    """a finite normal extended-precision number: explicit integer bit set, exponent near the bias"""
+    h = hashlib.blake2b(repr(key).encode(), digest_size=12).digest()
+    mant = int.from_bytes(h[:8], "little") | (1 << 63)
+    exp = 0x3FFF + (h[8] % 9) - 4
+    return mant.to_bytes(8, "little") + struct.pack("<H", exp | ((h[9] & 1) << 15))
+
+
+def x87_image(key, top):
+    """FXSAVE image for x87 probing: all exceptions masked, TOP = top, ST(0)..ST(5) valid finite numbers, ST(6..7) empty, random C0-C3"""
+    img = bytearray(fx_image(key))
+    h = rnd(key, "fsw")
+    fsw = ((top & 7) << 11) | ((h & 7) << 8) | (((h >> 3) & 1) << 14)
+    tags = 0
+    for i in range(X87_VALID):
+        tags |= 1 << ((top + i) % 8)          # the abridged tag byte is indexed by physical register
+    struct.pack_into("<HHBBH", img, 0, 0x037F, fsw, tags, 0, 0)
+    for i in range(8):
+        img[32 + 16 * i:32 + 16 * i + 10] = f80((key, "st", i))
+    return bytes(img)
+
+
+def x87_valid(fx):
+    """set of i such that ST(i) is non-empty in an FXSAVE image"""
+    top = (struct.unpack_from("<H", fx, 2)[0] >> 11) & 7
+    tags = fx[4]
+    return set(i for i in range(8) if (tags >> ((top + i) % 8)) & 1)
+
+
 def fx_image(key):
     """a valid FXSAVE image: FCW=0x37F, MXCSR=0x1F80 (all exceptions masked), pseudo-random mm/xmm contents"""
     img = bytearray(512)
@@ -75,9 +128,14 @@ def fx_image(key):
 
 def locations(inst, fxmode):
     locs = [("reg", n) for n in GPR] + [("flag", n) for n in FLAGS + ["df"]]
-    if fxmode:
+    if fxmode == "x87":
+        locs += [("st", i) for i in range(8)] + [("fc", i) for i in range(4)] + [("ftop", 0), ("fcw", 0)]
+    elif fxmode:
         locs += [("mm", i) for i in range(8)] + [("xmm", i) for i in range(8)]
     return locs
+
+
+FC_BIT = [8, 9, 10, 14]
 
 
 def get_loc(state_or_out, loc, is_out=False):
@@ -93,6 +151,15 @@ def get_loc(state_or_out, loc, is_out=False):
         return bytes(fx[160 + 16 * n:176 + 16 * n])
     if k == "mem":
         return state_or_out["data"][n]
+    if k == "st":
+        # the content of an empty register is not architecturally visible: all empty registers compare equal
+        return bytes(fx[32 + 16 * n:42 + 16 * n]) if n in x87_valid(fx) else b"empty"
+    if k == "fc":
+        return (struct.unpack_from("<H", fx, 2)[0] >> FC_BIT[n]) & 1
+    if k == "ftop":
+        return (struct.unpack_from("<H", fx, 2)[0] >> 11) & 7
+    if k == "fcw":
+        return struct.unpack_from("<H", fx, 0)[0] & 0x0F3F      # rounding and precision control, exception masks
 
 
 def perturb(st, loc, j):
@@ -118,6 +185,29 @@ def perturb(st, loc, j):
             if (j + b) % 3 != 1 or j == 0:
                 fx[off + b] ^= [0xFF, 0x01, 0x80, 0x55][(j + b) % 4] if (k == "mm" or b % 4 != 3) else 0x00
         s["fx"] = bytes(fx)
+    elif k == "st":
+        if n >= X87_VALID:
+            return None                      # empty register: nothing to read
+        fx = bytearray(s["fx"])
+        off = 32 + 16 * n
+        if j % 4 == 3:
+            fx[off + 9] ^= 0x80              # sign
+        elif j % 4 == 2:
+            fx[off + 8] ^= 0x01              # exponent
+        else:
+            fx[off + 7] ^= [0x40, 0x15][j % 2]      # high mantissa bits (integer bit kept)
+            fx[off + 5] ^= 0xA5
+        s["fx"] = bytes(fx)
+    elif k == "fc":
+        fx = bytearray(s["fx"])
+        struct.pack_into("<H", fx, 2, struct.unpack_from("<H", fx, 2)[0] ^ (1 << FC_BIT[n]))
+        s["fx"] = bytes(fx)
+    elif k == "fcw":
+        fx = bytearray(s["fx"])
+        struct.pack_into("<H", fx, 0, struct.unpack_from("<H", fx, 0)[0] ^ [0x0400, 0x0C00, 0x0800, 0x0100][j % 4])      # rounding control / precision control
+        s["fx"] = bytes(fx)
+    elif k == "ftop":
+        return None                          # renames every register: not a single-location change
     elif k == "mem":
         d = bytearray(s["data"])
         d[n] ^= [0xFF, 0x01, 0x80][j % 3]
@@ -159,6 +249,14 @@ def covered(loc, names, cells):
         return ("mm%d" % n) in names
     if k == "xmm":
         return ("xmm%d" % n) in names
+    if k == "st":
+        return ("float_st%d" % n) in names
+    if k == "fc":
+        return ("float_c%d" % n) in names
+    if k == "ftop":
+        return "float_stack_ptr" in names
+    if k == "fcw":
+        return "reg_float_control" in names
     if k == "mem":
         a = cpu.WIN + n
         return any((a - c) % (1 << 32) < l for c, l in cells)
@@ -176,6 +274,10 @@ def loc_class(loc):
         return "%s:%s" % (k, n)
     if k == "mem":
         return "memory"
+    if k == "fc":
+        return "x87:c%d" % n
+    if k in ("st", "ftop", "fcw"):
+        return "x87:" + k
     return k
 
 
@@ -196,11 +298,25 @@ def worker(run, st_, k, items):
         if not all(irsem.cname(e) == "ExprAff" for e in ex):
             st_.exclude("lifted_list_ill_formed(C11)")
             continue
-        fxmode = inst["family"] in ("mmx", "sse")
+        fxmode = "x87" if inst["family"] == "x87" else inst["family"] in ("mmx", "sse")
         und = None
         for sidx in range(nstates):
             s = make_state(inst, sidx, run.seed)
-            if fxmode:
+            if fxmode == "x87":
+                s["fx"] = x87_image((run.seed, inst["text"], sidx), sidx % 8)
+                if sidx < 2:
+                    # directed: all condition codes and status flags clear / set, so that "the instruction clears (sets) flag X" is exposed at every seed
+                    fxb = bytearray(s["fx"])
+                    w = struct.unpack_from("<H", fxb, 2)[0] & ~0x4700
+                    struct.pack_into("<H", fxb, 2, w | (0x4700 if sidx else 0))
+                    s["fx"] = bytes(fxb)
+                    s["eflags"] = (s["eflags"] & ~sum(1 << BIT[n] for n in FLAGS)) | (sum(1 << BIT[n] for n in FLAGS) if sidx else 0)
+                d = bytearray(s["data"])
+                d[0x210:0x21a] = f80((run.seed, inst["text"], sidx, "m"))      # a well-formed number under the memory operand
+                if inst["form"] == "m16" and "cw" in inst["text"]:
+                    d[0x210:0x212] = struct.pack("<H", [0x037F, 0x0F7F, 0x077F, 0x027F][sidx % 4])      # fldcw: exceptions stay masked
+                s["data"] = bytes(d)
+            elif fxmode:
                 s["fx"] = fx_image((run.seed, inst["text"], sidx))
             und = undefined_flags(inst, s)
             stubs = [cpu.ENTRY + len(code)] + [cpu.ENTRY + t for t in inst.get("targets", [])] + s["extra_stubs"]
@@ -246,7 +362,7 @@ def worker(run, st_, k, items):
                     if cpu.WIN <= a + i < cpu.WIN + cpu.WIN_LEN:
                         touched.add(a + i - cpu.WIN)
             # memory bytes near the operands (so that an omitted cell is noticed too)
-            probe_mem = sorted(touched)[:24] + [0x210, 0x211, 0x213, 0x217, 0x21f]
+            probe_mem = sorted(touched)[:24] + [0x210, 0x211, 0x213, 0x217, 0x218, 0x219, 0x21f]
             cases, meta = [], []
             for loc in locs + [("mem", i) for i in sorted(set(probe_mem))]:
                 for j in range(npairs):
@@ -297,7 +413,11 @@ def worker(run, st_, k, items):
 
 
 def report(st_, inst, code, sidx, run, kind, loc, det):
-    sig = runner.norm_sig((kind, inst["family"] if inst["family"] not in ("mmx", "sse") else inst["text"].split()[0], inst["form"], loc_class(loc)))
+    sig = runner.norm_sig((kind, inst["family"] if inst["family"] not in ("mmx", "sse", "x87") else inst["text"].split()[0], inst["form"], loc_class(loc)))
+    if inst["family"] == "x87" and loc_class(loc) in ("x87:c1", "x87:fcw"):
+        # two root causes that are not per instruction: the lifter never models C1 outside the compare family, and never reads the control word
+        # (rounding / precision control) in arithmetic; whether a given mnemonic exposes them depends on the data, so they are one bucket each
+        sig = runner.norm_sig((kind, "x87", "any", loc_class(loc)))
     if not any(f[0] == sig for f in st_.failures):
         st_.fail(sig, det, {"inst": inst, "code": code.hex(), "state": sidx, "seed": run.seed, "sig": list(sig)})
 
@@ -325,6 +445,8 @@ def all_instances(run):
         insts.append({"text": text, "family": "mmx", "size": 64, "form": form})
     for text, form in SSE:
         insts.append({"text": text, "family": "sse", "size": 128, "form": form})
+    for text, form in X87:
+        insts.append({"text": text, "family": "x87", "size": 80, "form": form})
     return insts
 
 
